@@ -6,6 +6,7 @@
 #![allow(clippy::too_many_arguments, clippy::type_complexity)]
 #![cfg_attr(docsrs, feature(doc_cfg))]
 #![cfg_attr(docsrs, allow(unused_attributes))]
+#![allow(unexpected_cfgs)]
 mod bbloom;
 mod cache;
 mod error;
@@ -26,6 +27,9 @@ mod sketch;
 mod store;
 mod ttl;
 pub(crate) mod utils;
+#[cfg(transparencies_stretto_verif)]
+#[allow(missing_docs)]
+pub mod verif;
 
 extern crate atomic;
 
@@ -39,7 +43,10 @@ extern crate serde;
 #[cfg_attr(docsrs, doc(cfg(feature = "async")))]
 pub(crate) mod axync {
     pub(crate) use async_channel::{bounded, unbounded, Receiver, RecvError, Sender};
+    #[cfg(not(transparencies_stretto_verif))]
     pub(crate) use futures::select;
+    #[cfg(transparencies_stretto_verif)]
+    pub(crate) use stretto_verif_rt::aselect as select;
     pub(crate) type WaitGroup = wg::AsyncWaitGroup;
     pub(crate) fn stop_channel() -> (Sender<()>, Receiver<()>) {
         bounded(1)
@@ -53,7 +60,10 @@ pub use cache::{AsyncCache, AsyncCacheBuilder};
 #[cfg_attr(docsrs, doc(cfg(feature = "sync")))]
 pub(crate) mod sync {
     pub(crate) use crossbeam_channel::{bounded, select, unbounded, Receiver, Sender};
+    #[cfg(not(transparencies_stretto_verif))]
     pub(crate) use std::thread::{spawn, JoinHandle};
+    #[cfg(transparencies_stretto_verif)]
+    pub(crate) use stretto_verif_rt::thread::{spawn, JoinHandle};
     pub(crate) use std::time::Instant;
 
     pub(crate) type UnboundedSender<T> = Sender<T>;
